@@ -19,24 +19,31 @@ THEOREMS = [
 ]
 PARTIAL = ['the equality of the reported charge/discharge columns with -x_in / -x_out is covered by the read-out correspondence and the oracle, not by a theorem', 'level theorems assume 0 <= end_level <= size, which the constructor does not check (end_level > size is accepted by the code and feasible with the last level above size)']
 COMPONENTS = ['storage builder vs Storage.setup_optim_problem (cost, bounds, rows in order, mapping)', 'storage read-out (fill level, charge, discharge) vs Storage.fill_level / io.extract_output', 'block start positions for tick block sizes vs pandas']
-RULE = ('storages over (size, rates, efficiency, start/end level, inflow, three costs, price, 1|2 nodes, windows, blocks, both MIP options, grids with unequal steps (DST), several units), each embedded in a small portfolio with a market per node and optimised; '
+RULE = ('storages over (size, rates, efficiency, start/end level, inflow, three costs, price, 1|2 nodes, windows, blocks, both MIP options, grids with unequal steps (DST), several units; number FORMS: every numeric parameter whose value is whole is handed to the constructor as Python int / np.int64 / np.int32 / float / np.float64 and whole-valued price series as int64 / int32 / float64 arrays (market series also as lists of ints), drawn per parameter from the seed while model and oracle keep the exact values; focus stream with whole size / start level next to a fractional end level and vice versa, whole rates, costs, inflow, holding limit, mostly without inflow and blocks), each embedded in a small portfolio with a market per node and optimised; '
         'non-trivial = solved with non-zero charge and discharge; distinct by case hash')
-ASSUMPTIONS = ['oracle tolerance 1e-6 scaled; MIP cases solved with HiGHS']
+ASSUMPTIONS = ['oracle tolerance 1e-6 scaled; MIP cases solved with HiGHS', 'number forms explored: Python int/float, np.int32/int64/float64 (no float32, no Decimal/Fraction); the price series of the storage itself always as numpy array (the code indexes it as one; lists only for the market contracts)']
 MODELLED = ['block boundaries for calendar block sizes are an input of the model (computed with the same pandas expression as the code); tick block sizes are modelled and cross-checked']
-EXPLANATION = 'theorems about the model of the Storage builder and the reported series; correspondence; oracle recomputing the physical level from x and the PARAMETERS'
+EXPLANATION = 'theorems about the model of the Storage builder and the reported series; correspondence; oracle recomputing the physical level from x and the PARAMETERS (their exact values, whatever number form - int, numpy integer, float - the constructor received)'
 
 
 def scenarios(seed, tier):
     n = 600 if tier == 'quick' else 3600
     rnd = random.Random(seed * 7919 + 5)
+    rndf = random.Random(seed * 7919 + 505)     # input forms: own stream of random numbers, the values of the cases stay as they were
     for i in range(n):
         r1 = random.Random(rnd.getrandbits(48))
+        rf = random.Random(rndf.getrandbits(48))
         c = ST.gen_case(r1)
         ok = not any(f.startswith('malformed') for f in c.get('features', []))
         if ok and i % 10 == 3:
             c = ST.focus_blocks(c, r1)
         elif ok and i % 10 == 7:
             c = ST.focus_holding(c, r1)
+        # number FORMS: whole numbers reach the constructor as int / numpy integer, price series as integer arrays ...
+        if ok and i % 10 in (1, 5, 9):
+            c = ST.focus_forms(c, rf)           # many whole-number parameters next to fractional ones
+        elif rf.random() < 0.5:
+            c = ST.draw_forms(c, rf)            # the case as drawn, whole numbers (if any) in integer forms
         yield 'st%d' % i, c
     from .. import gen
     for i in range(n // 10):
